@@ -3,6 +3,7 @@ package cert
 import (
 	"container/list"
 	"crypto/sha256"
+	"encoding/binary"
 	"maps"
 	"slices"
 	"strings"
@@ -52,6 +53,19 @@ func (cache *Cache) evict() {
 	delete(cache.entries, key)
 }
 
+// writeSigners adds the claimed signers of the signature to a cache key, so that the same
+// signature bytes under different signer labels are different keys.
+func writeSigners(key *strings.Builder, signature hotstuff.QuorumSignature) {
+	var buf [4]byte
+	signers := signature.Participants()
+	binary.LittleEndian.PutUint32(buf[:], uint32(signers.Len()))
+	_, _ = key.Write(buf[:])
+	signers.ForEach(func(id hotstuff.ID) {
+		binary.LittleEndian.PutUint32(buf[:], uint32(id))
+		_, _ = key.Write(buf[:])
+	})
+}
+
 // Sign signs a message and adds it to the cache for use during verification.
 func (cache *Cache) Sign(message []byte) (sig hotstuff.QuorumSignature, err error) {
 	sig, err = cache.impl.Sign(message)
@@ -61,6 +75,7 @@ func (cache *Cache) Sign(message []byte) (sig hotstuff.QuorumSignature, err erro
 	var key strings.Builder
 	hash := sha256.Sum256(message)
 	_, _ = key.Write(hash[:])
+	writeSigners(&key, sig)
 	_, _ = key.Write(sig.ToBytes())
 	cache.insert(key.String())
 	return sig, nil
@@ -71,6 +86,7 @@ func (cache *Cache) Verify(signature hotstuff.QuorumSignature, message []byte) e
 	var key strings.Builder
 	hash := sha256.Sum256(message)
 	_, _ = key.Write(hash[:])
+	writeSigners(&key, signature)
 	_, _ = key.Write(signature.ToBytes())
 
 	if cache.check(key.String()) {
@@ -91,14 +107,19 @@ func (cache *Cache) BatchVerify(signature hotstuff.QuorumSignature, batch map[ho
 	ids := slices.Sorted(maps.Keys(batch))
 	var hash hotstuff.Hash
 	hasher := sha256.New()
-	// then hash the messages in sorted order
+	// then hash the messages in sorted order, each with its signer and length
 	for _, id := range ids {
+		var buf [12]byte
+		binary.LittleEndian.PutUint32(buf[:4], uint32(id))
+		binary.LittleEndian.PutUint64(buf[4:], uint64(len(batch[id])))
+		_, _ = hasher.Write(buf[:])
 		_, _ = hasher.Write(batch[id])
 	}
-	hasher.Sum(hash[:])
+	hasher.Sum(hash[:0])
 
 	var key strings.Builder
 	_, _ = key.Write(hash[:])
+	writeSigners(&key, signature)
 	_, _ = key.Write(signature.ToBytes())
 
 	if cache.check(key.String()) {
